@@ -108,6 +108,11 @@ class SymNP(types.ModuleType):
         return np.full_like(a, fill_value, dtype=dtype)
 
     def array(self, x, dtype=None, **kw):
+        if dtype is not None and _floaty(dtype) and SymNP.force_object and Ctx.cur is not None and not _has_sym(x):
+            # explicit float conversion while executing symbolically: keep an object array (of python floats) so that
+            # later in-place updates with symbolic operands (amplitude *= taper) keep working; copy semantics as np.array
+            a = np.array(x, dtype=dtype, **kw)
+            return a.astype(object)
         if _floaty(dtype) and _has_sym(x):
             a = np.array(x, dtype=object, **{k: v for k, v in kw.items() if k != "copy"})
             for v in a.flat:
@@ -247,7 +252,12 @@ class SymNP(types.ModuleType):
     def allclose(self, a, b, *k, **kw):
         if _has_sym(a) or _has_sym(b):
             raise Unsupported("np.allclose on symbolic values")
-        return np.allclose(a, b, *k, **kw)
+        return np.allclose(np.asarray(a, dtype=float), np.asarray(b, dtype=float), *k, **kw)
+
+    def isclose(self, a, b, *k, **kw):
+        if _has_sym(a) or _has_sym(b):
+            raise Unsupported("np.isclose on symbolic values")
+        return np.isclose(np.asarray(a, dtype=float), np.asarray(b, dtype=float), *k, **kw)
 
     def cov(self, m, y=None, rowvar=True, bias=False, ddof=None, fweights=None, aweights=None, **kw):
         if (_has_sym(m) or _has_sym(y)) and aweights is None and fweights is None:
@@ -260,6 +270,7 @@ class SymNP(types.ModuleType):
         return np.cov(m, y, rowvar=rowvar, bias=bias, ddof=ddof, fweights=fweights, aweights=aweights, **kw)
 
     symbolic_trig = True
+    force_object = True
     symbolic_pi = True
 
 
